@@ -200,8 +200,7 @@ macro_rules! Header {
                 self.get(name)
             }
             pub fn get(&self, name: &str) -> Option<&str> {
-                let value = self.custom.as_ref()?
-                    .get(&Slice::from_bytes(name.as_bytes()))
+                let value = self.get_custom_raw(name.as_bytes())
                     .or_else(|| {
                         let standard = Header::from_bytes(name.as_bytes())?;
                         unsafe {self.standard.get(standard as usize)}
@@ -344,10 +343,22 @@ impl Headers {
         self.insert_custom(name, value)
     }
 
+    /// header names are case-insensitive
+    #[inline] fn get_custom_key(&self, name: &[u8]) -> Option<&Slice> {
+        self.custom.as_ref()?
+            .keys()
+            .find(|k| unsafe {k.as_bytes()}.eq_ignore_ascii_case(name))
+    }
+    #[inline] fn get_custom_raw(&self, name: &[u8]) -> Option<&CowSlice> {
+        self.custom.as_ref()?.get(self.get_custom_key(name)?)
+    }
+
     #[inline] pub(crate) fn append_custom(&mut self, name: Slice, value: CowSlice) {
         if self.custom.is_none() {
             self.custom = Some(Box::new(TupleMap::new()))
         }
+
+        let name = self.get_custom_key(unsafe {name.as_bytes()}).cloned().unwrap_or(name);
 
         let c = unsafe {self.custom.as_mut().unwrap_unchecked()};
 
